@@ -20,3 +20,15 @@ impl<K, V> BTreeMap<K, V> {
     #[verifier::external_body] pub fn contains_key<Q: ?Sized + KvxMapKey<K>>(&self, k: &Q) -> (r: bool) ensures r == self@.contains_key(k.as_key()) { unimplemented!() }
     #[verifier::external_body] pub fn is_empty(&self) -> (r: bool) ensures r == (self@.dom() =~= Set::<K>::empty()) { unimplemented!() }
 }
+impl<K, V> BTreeMap<K, V> {
+    #[verifier::external_body] pub fn new() -> (r: BTreeMap<K, V>) ensures r@ == Map::<K, V>::empty() { unimplemented!() }
+    // derived / std Clone: an equal map (for element types whose clone is the identity)
+    #[verifier::external_body] pub fn clone(&self) -> (r: BTreeMap<K, V>) ensures r@ == self@ { unimplemented!() }
+    // BTreeMap::retain (std documentation): keeps exactly the pairs for which the predicate returns true. The predicate's own contract
+    // (f.ensures, CHECKED where the closure is written) is what the result is stated through. ASSUMED: the predicate does not change
+    // the value through its `&mut V` parameter (true of every predicate that ignores it).
+    #[verifier::external_body] pub fn retain<F: FnMut(&K, &mut V) -> bool>(&mut self, f: F)
+        requires forall|k: &K, v: &mut V| #[trigger] f.requires((k, v)),
+        ensures forall|k: K| #[trigger] final(self)@.contains_key(k) ==> (old(self)@.contains_key(k) && final(self)@[k] == old(self)@[k] && exists|kr: &K, v: &mut V| *kr == k && #[trigger] f.ensures((kr, v), true)),
+                forall|k: K| old(self)@.contains_key(k) && !(#[trigger] final(self)@.contains_key(k)) ==> exists|kr: &K, v: &mut V| *kr == k && #[trigger] f.ensures((kr, v), false) { unimplemented!() }
+}
